@@ -1697,6 +1697,15 @@ pub fn replay(case: &Value) -> Result<(), String> {
             }
             rt.shutdown_background();
         }
+        "emit" => {
+            // the whole emit sweep for that element type (a few hundred calls)
+            let rt = tokio::runtime::Builder::new_multi_thread().worker_threads(2).enable_all().build().map_err(|e| e.to_string())?;
+            let mut sweep = EmitSweep { w: &mut w, rt: &rt };
+            if !visit_named(case["type"].as_str().unwrap_or(""), &mut sweep) {
+                return Err("unknown type".into());
+            }
+            rt.shutdown_background();
+        }
         "msg" | "route" | "wrong-type" | "wrong-format" => {
             let ty = if part == "wrong-type" { case["recv"].as_str() } else { case["type"].as_str() };
             let mut r = ReplayOne { case, w, sent: None };
